@@ -25,7 +25,7 @@ def in_domain(c):
 
 
 def run(rep, model, tier, seed, broken=()):
-    ast_run(rep, model, tier, seed, "C03", "function-signatures", 1, {0, 1}, 300, 12000,
+    ast_run(rep, model, tier, seed, "C03", "function-signatures", 1, {0, 1}, 700, 12000,
             weights=dict(defn=6, cpa=4, block=3, generic=1, set=0.5, option=0.3, add_test=0.3, klass=1.5,
                          test=1.5, dangling=0.2),
             gen_kw=dict(cpa_p=0.35, max_depth=5),
